@@ -29,7 +29,7 @@ deriving Repr, Inhabited
 /-- `DecoderConfig.SetDefaults` + `Verify` on Go ints -/
 def decCfg (ws bs : Int) : Option (Nat × Nat) :=
   let ws := if ws = 0 then Facts.decDefWindowSize else ws
-  let bs := if bs = 0 then 2 * ws else bs
+  let bs := if bs = 0 then Facts.decBufFactor * ws else bs
   if (1 ≤ bs ∧ bs ≤ Facts.maxUint32) ∧ (0 ≤ ws ∧ ws < bs) then some (ws.toNat, bs.toNat) else none
 
 namespace DecBuf
